@@ -17,8 +17,8 @@ OPS = {'o': 'cleared', 'x': 'failed', '-': 'passed', 'r': 'retired'}
 
 
 class Player(object):
-    def __init__(self, n, on_call=None, noise=0, draw=None, max_reg=4, lenient=False, float_heights=False):
-        self.c, self.m, self.hist = hjsearch.start(BIBS[:n])
+    def __init__(self, n, on_call=None, noise=0, draw=None, max_reg=4, lenient=False, float_heights=False, bibs=None):
+        self.c, self.m, self.hist = hjsearch.start((bibs or BIBS)[:n])
         self.alive = True
         self.on_call = on_call
         self.noise = noise
@@ -121,12 +121,15 @@ def jumpoff(p, draw, max_heights=3):
                 break
 
 
-def random_play(draw, on_call=None, noise=0, nmin=2, lenient=False, float_heights=False, tail=0):
+INT_BIBS = [7, 12, 101, 5]
+
+
+def random_play(draw, on_call=None, noise=0, nmin=2, lenient=False, float_heights=False, tail=0, int_bibs=False):
     n = nmin + draw(5 - nmin)
     hreg = 1 + draw(4)
-    p = Player(n, on_call, noise, draw, lenient=lenient, float_heights=float_heights)
+    p = Player(n, on_call, noise, draw, lenient=lenient, float_heights=float_heights, bibs=INT_BIBS if int_bibs else None)
     p.tail = tail
-    bibs = BIBS[:n]
+    bibs = (INT_BIBS if int_bibs else BIBS)[:n]
     step = hjsearch.STEP if not float_heights or draw(2) else Decimal('0.01')
     h = Decimal('0.95')
     if float_heights:
